@@ -81,3 +81,11 @@ CHECKS["C13"] = dict(
     design_ref="DESIGN.md section 3 C13",
     note="use_backups stays off here (C08). Event order is the order in which callbacks were invoked in the driver process.",
 )
+
+CHECKS["C16"] = dict(
+    level="exploration",
+    technique="property-based testing with a store trace and a recording executor: generated programs covering the whole op table are built, planned, visualized, repr'd and lazily stored under a tracing intermediate store or a not-yet-existing work_dir; any write, chunk read, directory creation or executor entry before a documented trigger is a violation",
+    text="After building every node and after each drawn lazy action (plan with several optimizers, visualize to a scratch file, repr/_repr_html_, store/to_zarr(compute=False), rechunk, metadata access) the trace must contain no set/delete/chunk read, the work directory must still be absent or empty, lazy targets must not exist and the executor must not have been entered. Then one documented trigger (compute, eager store/to_zarr, __array__, scalar conversions) is exercised and must enter the executor.",
+    design_ref="DESIGN.md section 3 C16",
+    note="API coverage of the op table versus cubed.__all__ is reported in the evidence. Inputs opened with from_zarr live in a separate store whose metadata may be read.",
+)
